@@ -5,14 +5,21 @@ evaluations; at every evaluation point each value it returns is compared with th
 query by a *replay* model to which only the edits of the history so far were applied, with no evaluation in
 between (built from scratch for every edit prefix).  An exception counts as an outcome (compared by type name).
 
-Enumeration: a fixed vocabulary of small "worlds" (2-4 spaces, see c02_worlds.py).  Every world lists its
-queries (each tagged with the kind of dependency path it exercises) and its edit operations (each tagged with
-the kind of edit).  For every world the driver enumerates all edit sequences up to the bound (an edit that the
-replay model rejects prunes the branch) x evaluation patterns (per gap between edits: nothing / all queries
-forward / all queries in reverse order / one single query).
+Enumeration: a fixed vocabulary of small "worlds" (2-5 spaces, see c02_worlds.py).  Every world lists its
+queries (each tagged with the kind of dependency path it exercises: by name / by attribute path, to a reference
+of the space / of the model / derived / of a child or parent space, through a cached caller, through an uncached
+intermediate, from a caller in another space, inside ItemSpaces ...) and its edit operations (each tagged with
+the kind of edit).  For every world the driver enumerates all edit sequences up to the bound x evaluation
+patterns (per gap between edits: nothing / all queries forward / all queries in reverse order / one single
+query).  Domain: an edit sequence is used when the replay model accepts every edit and no query of the replay
+model ends in DeletedObjectError (a reference left bound to a deleted object poisons the whole namespace of the
+referring space; such models are left out, see the report).
 
-Failure tags = kinds of the edits between the last evaluation of the failing query and the failing check
-(minimised by deletion when more than one edit is in that window) + the path tags of the failing query.
+Failure tags = path tags of the failing query + kinds of the culprit edits, i.e. the edits made since the query
+was last seen correct that changed its correct answer (when several qualify, the history is minimised by
+deleting edits and evaluations, a bounded number of times per task).  Edits that only set the scene are not in
+the tags.  Edit kinds are refined from the state ("creates" / "changes" / "shadows a model-level reference",
+"callee currently uncached") by probes evaluated on finished replay models; probes never decide pass/fail.
 """
 import os, sys, time, itertools, random, multiprocessing
 
@@ -188,12 +195,16 @@ class Runner:
         else:
             yield pat[:i]           # the evaluations of this gap move to the final (all) evaluation
 
-    def script(self, seq, pattern, qi):
+    def script(self, seq, pattern, qi, final_spec=F):
         hist = []
         for gap, ei in enumerate(seq):
             for q in self.order(pattern[gap]):
                 hist.append(("eval", self.w.queries[q].expr))
             hist.append(("edit", self.w.edits[ei].line))
+        for q in self.order(final_spec):        # what the failing evaluation round evaluated before the query
+            if q == qi:
+                break
+            hist.append(("eval", self.w.queries[q].expr))
         return SCRIPT % {"build": repr(list(self.w.build)), "hist": repr(hist),
                          "query": repr(self.w.queries[qi].expr), "world": self.w.name}
 
@@ -288,13 +299,17 @@ def work(task):
     fails = {}          # tags -> [count, [(what, script, case) ...up to 2]]
     expired = False
     shrunk = {}
+    sample_case = []
 
     def one(seq, pat):
         bad, nontrivial, eerr = rn.live(seq, pat)
         key = "%s|%s|%s" % (world.name, ",".join(map(str, seq)), ",".join(map(str, pat)))
         cases.append((key, nontrivial))
+        if nontrivial and not bad and len(seq) >= len(sample_case) // 2:
+            sample_case[:] = rn.describe(seq, pat)
         for gap, qi, o, r, start in bad:
             sseq, spat = tuple(seq[:gap]), tuple(pat[:gap])
+            fspec = pat[gap] if gap < len(seq) else F
 
             def tagset(sseq, start):
                 tags = set(world.queries[qi].tags)
@@ -316,6 +331,7 @@ def work(task):
                 if mk not in shrunk and len(shrunk) < SHRINKS_PER_TASK:
                     shrunk[mk] = True
                     sseq, spat = rn.shrink(seq, pat, gap, qi)
+                    fspec = F
                     start = next((i for i, s in enumerate(spat) if s != N), 0)
                     again = [b for b in rn.live(sseq, spat)[0] if b[1] == qi]
                     if again:
@@ -327,7 +343,7 @@ def work(task):
             if len(ent[1]) < 2:
                 what = ("world %s: after %s the query %s gives %s; a model that got only the edits gives %s"
                         % (world.name, rn.describe(sseq, spat), world.queries[qi].expr, o, r))
-                ent[1].append((what, rn.script(sseq, spat, qi), key))
+                ent[1].append((what, rn.script(sseq, spat, qi, fspec), key))
 
     for k, level, sample in [tier_plan(tier)[row]]:
         pats = patterns(k, rn.nq, level)
@@ -349,7 +365,8 @@ def work(task):
                 break
         if expired:
             break
-    return wi, first, cases, fails, expired, (rn.builds, time.process_time() - t_start, len(shrunk))
+    return wi, first, cases, fails, expired, (rn.builds, time.process_time() - t_start, len(shrunk),
+                                              [world.name] + sample_case + ["eval[f]"])
 
 
 def run(res, tier, seed):
@@ -359,13 +376,14 @@ def run(res, tier, seed):
                  % (len(worlds), max(len(w.queries) for w in worlds), max(len(w.edits) for w in worlds))
                  + (" (3-edit histories sampled in the quick tier)" if tier == "quick"
                     else ", plus seeded samples of 4- and 5-edit histories"))
-    res.rule = ("per world: every edit sequence accepted by the edits-only replay model x evaluation patterns "
+    res.rule = ("per world: every edit sequence accepted by the edits-only replay model (and leaving no reference bound "
+                "to a deleted object) x evaluation patterns "
                 "(per gap: none / all queries forward / all reverse / one query); one evaluation = one live history, "
                 "every value it returns at every evaluation point compared with the replay model of that edit prefix; "
                 "non-trivial = some query was evaluated to a value before an edit and evaluated again after it, and the "
                 "replay model's answer to it changed in between (a held value depended on the edited thing); "
                 "distinct = distinct (world, edit sequence, evaluation pattern)")
-    deadline = res.t0 + res.budget_s * 0.9
+    deadline = res.t0 + res.budget_s * (0.8 if tier == "quick" else 0.85)
     tasks = [(wi, first, tier, seed, deadline, row) for row in range(len(tier_plan(tier)))
              for wi, w in enumerate(worlds) for first in range(len(w.edits))]
     nproc = max(1, min(12, (os.cpu_count() or 2) - 2))
@@ -383,8 +401,8 @@ def run(res, tier, seed):
                 res.failure_counts[tags] = res.failure_counts.get(tags, 0) + count - len(examples)
             if expired:
                 exhaustive = False
-            if cases and first == 0 and len(res.samples) < 5:
-                res.sample(cases[len(cases) // 2][0])
+            if first == 1 and len(nb[3]) > 2:
+                res.sample(nb[3], cap=6)
     res.exhaustive = exhaustive
     res.notes.append("model builds (live + replay): %d; %d worker processes; worker cpu %.0f s (largest task %.1f s); "
                      "%d failing histories minimised" % (builds, nproc, cpu, maxcpu, nshrunk))
